@@ -91,16 +91,32 @@ static std::vector<size_t> nums(const std::string &s) {
   return v;
 }
 
+// Slots of the backend other than malloc and free: present in some cases, but decoys - they do nothing and return NULL.
+// The documentation of uriCompleteMemoryManager says the wrapper "uses backend->malloc, memcpy, and backend->free"; a
+// backend "that offers only malloc and free" may well carry stale or stub pointers in the other slots.
+static int &decoy_calls() { static int n = 0; return n; }
+static void *decoy_calloc(UriMemoryManager *, size_t, size_t) { decoy_calls()++; errno = ENOMEM; return nullptr; }
+static void *decoy_realloc(UriMemoryManager *, void *, size_t) { decoy_calls()++; errno = ENOMEM; return nullptr; }
+static void *decoy_reallocarray(UriMemoryManager *, void *, size_t, size_t) { decoy_calls()++; errno = ENOMEM; return nullptr; }
+
+static Verdict check_inner(const Fields &f);
 static Verdict check(const Fields &f) {
+  decoy_calls() = 0;
+  Verdict v = check_inner(f);
+  if (decoy_calls() != 0 && v.kind != Verdict::FAIL)
+    return Verdict::fail("the completed manager called a slot of its backend other than malloc and free (" + std::to_string(decoy_calls()) + " call(s)); a backend that offers only malloc and free does not serve those");
+  return v;
+}
+static Verdict check_inner(const Fields &f) {
   // two managers completed from two different backends live side by side: a block belongs to the manager that made it
   LedgerMM backends[2];
   UriMemoryManager ms[2];
   for (int k = 0; k < 2; k++) {
     LedgerMM &be = backends[k];
     int extras = (int)f.geti("backendextras");
-    if (!(extras & 1)) be.mm.calloc = nullptr;
-    if (!(extras & 2)) be.mm.realloc = nullptr;
-    if (!(extras & 4)) be.mm.reallocarray = nullptr;  // extras == 0: malloc + free only
+    be.mm.calloc = (extras & 1) ? &decoy_calloc : nullptr;
+    be.mm.realloc = (extras & 2) ? &decoy_realloc : nullptr;
+    be.mm.reallocarray = (extras & 4) ? &decoy_reallocarray : nullptr;  // extras == 0: malloc + free only
     be.refuse_above = 16u << 20;
     be.fail_mask = strtoull(f.get("faultmask").c_str(), nullptr, 10);
     be.tag = k ? "backend-1" : "backend-0";
